@@ -56,6 +56,8 @@ pub struct SerdeOps {
     pub json_twin: fn(u128) -> Result<String, String>,
     pub unjson: fn(&str, bool) -> Result<u128, String>,
     pub unjson_twin: fn(&str) -> Result<u128, String>,
+    /// through `serde_json::from_reader` (keys arrive as owned, not borrowed, strings)
+    pub unjson_reader: fn(&str, bool) -> Result<u128, String>,
     pub cbor: fn(u128, bool) -> Result<Vec<u8>, String>,
     pub cbor_twin: fn(u128) -> Result<Vec<u8>, String>,
     pub uncbor: fn(&[u8], bool) -> Result<u128, String>,
@@ -80,6 +82,7 @@ pub fn serde_ops<T: crate::lay::Lay>() -> SerdeOps {
         json_twin: |_| off(),
         unjson: |_, _| off(),
         unjson_twin: |_| off(),
+        unjson_reader: |_, _| off(),
         cbor: |_, _| off(),
         cbor_twin: |_| off(),
         uncbor: |_, _| off(),
@@ -388,6 +391,14 @@ fn unjson<T: Lay>(s: &str, wrapping: bool) -> Result<u128, String> {
     }
     .map_err(|e| e.to_string())
 }
+fn unjson_reader<T: Lay>(s: &str, wrapping: bool) -> Result<u128, String> {
+    if wrapping {
+        serde_json::from_reader::<_, W<T>>(s.as_bytes()).map(|w| w.0.tb())
+    } else {
+        serde_json::from_reader::<_, T>(s.as_bytes()).map(|v| v.tb())
+    }
+    .map_err(|e| e.to_string())
+}
 fn unjson_twin<T: Lay>(s: &str) -> Result<u128, String> {
     serde_json::from_str::<Twin<T::SInt>>(s).map(|t| t.bits.tb()).map_err(|e| e.to_string())
 }
@@ -418,6 +429,7 @@ pub fn serde_ops<T: Lay>() -> SerdeOps {
         json_twin: json_twin::<T>,
         unjson: unjson::<T>,
         unjson_twin: unjson_twin::<T>,
+        unjson_reader: unjson_reader::<T>,
         cbor: cbor::<T>,
         cbor_twin: cbor_twin::<T>,
         uncbor: uncbor::<T>,
